@@ -84,6 +84,16 @@ def run(rep, tier, seed, replay=None):
     # the line built here must BE the line the SPEC builds, and carries the prescribed outcome and sends
     spec = {}
     built = {c.split(" ", 1)[0]: c.split(" ", 1)[1] for c in cases}
+    # (the quick tier asks for every case; the thorough tier, whose vectors number hundreds of thousands, for a seeded
+    # sample of at most PLAN_SAMPLE per family — the plan line costs as much as the case itself)
+    PLAN_SAMPLE = 8000
+    by_family = {}
+    for req in plan_requests:
+        by_family.setdefault(meta[req.split(" ", 1)[0]][0].fam, []).append(req)
+    plan_requests = []
+    for fam in sorted(by_family):
+        reqs = by_family[fam]
+        plan_requests += reqs if len(reqs) <= PLAN_SAMPLE else rnd.sample(reqs, PLAN_SAMPLE)
     for cid, out in vlib.run_model(plan_requests).items():
         parts = out.split(" ## ")
         tags = {}
